@@ -45,6 +45,13 @@ class _Statement(object):
     self.pop_uses = None
 
 
+def _is_symbol(node):
+  """Whether node is a plain, possibly dotted, name."""
+  while isinstance(node, ast.Attribute):
+    node = node.value
+  return isinstance(node, ast.Name)
+
+
 class ListTransformer(converter.Base):
   """Converts lists and related operations to their TF counterpart."""
 
@@ -134,9 +141,13 @@ class ListTransformer(converter.Base):
     # TODO(mdan): Checking just the name is brittle, can it be improved?
     if isinstance(node.func, ast.Attribute):
       func_name = node.func.attr
-      if func_name == 'append' and (len(node.args) == 1):
+      # append and pop re-assign the list: only a plain, possibly dotted, name
+      # can be both read and assigned, other targets (e.g. `f().append(x)`)
+      # keep the native call.
+      is_symbol = _is_symbol(node.func.value)
+      if func_name == 'append' and (len(node.args) == 1) and is_symbol:
         node = self._replace_append_call(node)
-      elif func_name == 'pop' and (len(node.args) <= 1):
+      elif func_name == 'pop' and (len(node.args) <= 1) and is_symbol:
         node = self._replace_pop_call(node)
       elif (func_name == 'stack' and (len(node.args) == 1) and
             (not node.keywords or node.keywords[0].arg == 'strict')):
